@@ -163,8 +163,12 @@ fn authenticate_message(lm_challenge_response: &[u8], nt_challenge_response:&[u8
 fn get_payload_field(message: &Component, length: u16, buffer_offset: u32) -> RdpResult<&[u8]> {
     let payload = cast!(DataType::Slice, message["Payload"])?;
     let offset = message.length() as usize - payload.len();
-    let start = buffer_offset as usize - offset;
+    // offset and length come from the peer: they must address the payload
+    let start = (buffer_offset as usize).checked_sub(offset).ok_or(Error::RdpError(RdpError::new(RdpErrorKind::InvalidSize, "NTLM: field offset points before the payload")))?;
     let end = start + length as usize;
+    if end > payload.len() {
+        return Err(Error::RdpError(RdpError::new(RdpErrorKind::InvalidSize, "NTLM: field outside of the payload")))
+    }
     Ok(&payload[start..end])
 }
 
